@@ -9,6 +9,7 @@ import GBS.Model.WellPosed
 import GBS.Model.AtomGraph
 import GBS.Model.AtomGen
 import GBS.Model.MolProb
+import GBS.Model.Certify
 /-! JSON codecs for the line protocol (driver only; not part of the verified model). -/
 open Lean
 namespace GBS.Driver
